@@ -32,6 +32,7 @@ type Program struct {
 	repo         string
 	globals      map[*types.Var]*ssa.Global
 	loadSecs     float64
+	overlay      map[string][]byte
 }
 
 const modPath = "github.com/prometheus/prometheus"
@@ -61,7 +62,7 @@ func LoadProgram(repo string, patterns []string, overlay map[string][]byte) (*Pr
 	prog.Build()
 	p := &Program{fset: pkgs[0].Fset, pkgs: pkgs, ssaProg: prog, contracts: map[string]*FuncContract{}, constGlobals: map[string]bool{},
 		typeIDs: map[string]int{}, pkgByName: map[string]*types.Package{}, srcCache: map[string][]string{},
-		anchors: map[string][2]int{}, repo: repo, allPkgs: map[string]*packages.Package{}, globals: map[*types.Var]*ssa.Global{}}
+		anchors: map[string][2]int{}, repo: repo, overlay: overlay, allPkgs: map[string]*packages.Package{}, globals: map[*types.Var]*ssa.Global{}}
 	packages.Visit(pkgs, nil, func(pk *packages.Package) {
 		p.allPkgs[pk.PkgPath] = pk
 		if _, ok := p.pkgByName[pk.Name]; !ok || strings.HasPrefix(pk.PkgPath, modPath) {
@@ -181,11 +182,19 @@ func (p *Program) findFunc(full string) *ssa.Function {
 	return found
 }
 
+// readFile reads a source file, honouring the in-memory overlay used by the must-fail corpus.
+func (p *Program) readFile(file string) ([]byte, error) {
+	if b, ok := p.overlay[file]; ok {
+		return b, nil
+	}
+	return os.ReadFile(file)
+}
+
 func (p *Program) lines(file string) []string {
 	if l, ok := p.srcCache[file]; ok {
 		return l
 	}
-	b, err := os.ReadFile(file)
+	b, err := p.readFile(file)
 	if err != nil {
 		p.srcCache[file] = nil
 		return nil
@@ -214,7 +223,7 @@ func (p *Program) srcAt(pos token.Pos, dflt string) string {
 
 func (p *Program) srcText(from, to token.Pos) string {
 	a, b := p.fset.Position(from), p.fset.Position(to)
-	data, err := os.ReadFile(a.Filename)
+	data, err := p.readFile(a.Filename)
 	if err != nil || a.Offset > len(data) || b.Offset > len(data) || a.Offset > b.Offset {
 		return ""
 	}
